@@ -45,7 +45,7 @@ M = [
     ('C06', 'clear-only-primary', 'pgpy/pgp.py', "            for sk in itertools.chain([self], self.subkeys.values()):\n                sk._key.keymaterial.clear()\n", "            self._key.keymaterial.clear()\n"),
     ('C06', 'sha1-check-skipped', 'pgpy/packet/fields.py', "        if self.s2k.usage == 254 and not pt[-20:] == hashlib.new('sha1', pt[:-20]).digest():", "        if False:"),
     ('C06', 'encrypt-keyblob-forgets-clear', 'pgpy/packet/fields.py', "        del pt\n        self.clear()\n", "        del pt\n"),
-    ('C06', 'protect-iv-zero', 'pgpy/packet/fields.py', "        self.s2k.iv = enc_alg.gen_iv()\n", "        self.s2k.iv = bytearray(enc_alg.block_size // 8)\n"),
+    ('C13', 'protect-iv-zero', 'pgpy/packet/fields.py', "        self.s2k.iv = enc_alg.gen_iv()\n", "        self.s2k.iv = bytearray(enc_alg.block_size // 8)\n"),
     ('C09', 'newlen-191-boundary', 'pgpy/types.py', "            if 192 > nl:\n                return Header.int_to_bytes(nl)", "            if 191 > nl:\n                return Header.int_to_bytes(nl)"),
     ('C09', 'two-octet-decode-without-192', 'pgpy/types.py', "return (((dlen - (192 << 8)) & 0xFF00) + ((dlen & 0xFF) + 192), 2, False)", "return (((dlen - (192 << 8)) & 0xFF00) + ((dlen & 0xFF)), 2, False)"),
     ('C09', 's2k-count-bias', 'pgpy/packet/fields.py', "        return (16 + (self._count & 15)) << ((self._count >> 4) + 6)", "        return (16 + (self._count & 15)) << ((self._count >> 4) + 5)"),
